@@ -222,7 +222,9 @@ def run_shard(shard, ctx):
     for unit in shard['units']:
         cfg = unit['cfg']
         name = gen.cfg_str(cfg)
-        alg = gen.make_algebra(cfg)
+        alg = gen.make_or_skip(ctx, cfg)
+        if alg is None:
+            continue
         ctx.count('algebras')
         d = alg.d
         P = productions(d, alg.start_index)
